@@ -1129,7 +1129,7 @@ def proximal_convex_conj_l1(space, lam=1, g=None):
             # diff = x - sig * g
             if g is not None:
                 diff = self.domain.element()
-                diff.lincomb(1, x, -self.sigma, g)
+                diff.lincomb(1, x, -1, self.sigma * g)
             else:
                 if x is out:
                     # Handle aliased `x` and `out`
